@@ -15,6 +15,10 @@ NoScript == <<>>
 \* directed workload (found by TLC with NW=2, MaxOps=3, puts only) exhibiting "compaction_concurrent_install"
 W(g, k) == [gap |-> g, kind |-> "put", key |-> k]
 ScriptCompaction == << <<W(0, 1), W(1, 2), W(0, 1)>>, <<W(1, 2), W(1, 1), W(0, 1)>> >>
+\* directed workload (found by TLC: 3 writers x 2 puts, 3 keys, gaps {0,5}, batch 2, memtable 2, SL=6) exhibiting
+\* "inflight_counted_not_tracked": writer 2's append (key 3) is still in its sync when writer 1's second,
+\* later and non-syncing append lands and fills the memtable
+ScriptOvertake == << <<W(0, 2), W(0, 1)>>, <<W(5, 3)>>, <<W(0, 2)>> >>
 
 MCCfgs == { [nw |-> NW, nk |-> NK, memsize |-> ms, policy |-> p, batch |-> BatchN, period |-> PeriodT,
              WL |-> WL, SL |-> SL, ML |-> ML, FL |-> FL, strat |-> Strat, thr |-> Thr, base |-> 1, ratio |-> 2,
